@@ -220,11 +220,6 @@ package tengo
 //@   requires len(moduleName) <= MaxStringLen
 //@   assigns nothing
 
-// Compile is not yet inside the verifier's reach as a whole (recursive, 1 667
-// SSA instructions, inlines the module loader); its String.Value sites (the
-// string-literal arm) are inventoried but not proved.
-//@ func (*Compiler).Compile
-//@   mode unverified too large for inlining; needs contracts on its helpers
 
 // ---------------------------------------------------------------------------
 // VM dispatch loop: step contracts (one clause per loop iteration)
@@ -539,3 +534,121 @@ package tengo
 //@                     && is(deduped[chars[k]], *Char) && deduped[chars[k]].(*Char).Value == k
 //@   loop 0 invariant mods_rng{C02,C12}: forall k string :: haskey(immutableMaps, k) ==> 0 <= immutableMaps[k] && immutableMaps[k] < len(deduped)
 //@                     && is(deduped[immutableMaps[k]], *ImmutableMap)
+
+// ---------------------------------------------------------------------------
+// symbol table (frames by object type: symbol tables own SymbolTable / Symbol
+// objects, their maps and symbol slices; nothing else is written)
+// ---------------------------------------------------------------------------
+
+//@ func (*SymbolTable).nextIndex
+//@   mode panics-allowed parent-chain
+//@   assigns nothing
+//@ func (*SymbolTable).updateMaxDefs
+//@   mode panics-allowed parent-chain
+//@   assigns typeof(SymbolTable)
+//@ func (*SymbolTable).Parent
+//@   mode panics-allowed parent-chain
+//@   assigns nothing
+//@ func (*SymbolTable).Define
+//@   props C11
+//@   mode panics-allowed parent-chain
+//@   assigns typeof(SymbolTable), heapmap(map[string]*Symbol)
+//@   ensures sym: result != nil && fresh(result)
+//@ func (*SymbolTable).DefineBuiltin
+//@   mode panics-allowed parent-chain
+//@   assigns typeof(SymbolTable), heapmap(map[string]*Symbol), heap(*Symbol)
+//@   ensures sym: result != nil && fresh(result)
+//@ func (*SymbolTable).defineFree
+//@   props C11
+//@   requires original != nil
+//@   assigns typeof(SymbolTable), heapmap(map[string]*Symbol), heap(*Symbol)
+//@   ensures sym: result != nil && fresh(result) && result.Scope == ScopeFree && result.Index == old(len(t.freeSymbols))
+//@   ensures captured: len(t.freeSymbols) == old(len(t.freeSymbols)) + 1 && t.freeSymbols[result.Index] == original
+//@ func (*SymbolTable).Resolve
+//@   props C11
+//@   mode panics-allowed parent-chain
+//@   assigns typeof(SymbolTable), heapmap(map[string]*Symbol), heap(*Symbol)
+//@   ensures found: res2 ==> res0 != nil
+//@   ensures missing: !res2 ==> res0 == nil && res1 == 0
+//@ func (*SymbolTable).BuiltinSymbols
+//@   mode panics-allowed parent-chain
+//@   assigns nothing
+
+// ---------------------------------------------------------------------------
+// compiler: emission primitives
+// ---------------------------------------------------------------------------
+
+//@ func (*Compiler).addConstant
+//@   props C02
+//@   mode panics-allowed parent-chain
+//@   requires c.trace == nil
+//@   assigns typeof(Compiler), heap(Object)
+//@   ensures idx: result >= 0
+
+//@ func (*Compiler).emit
+//@   props C02 C14
+//@   requires scope: 0 <= c.scopeIndex && c.scopeIndex < len(c.scopes) && c.trace == nil && c.scopes[c.scopeIndex].SourceMap != nil
+//@   requires opcode <= parser.OpSuspend && len(operands) == spec.parser_OpcodeOperands_len(int64(opcode))
+//@   assigns c.scopes[c.scopeIndex].Instructions, heap(byte), heapmap(map[int]parser.Pos)
+//@   let ins0 = old(c.scopes[c.scopeIndex].Instructions)
+//@   ensures pos: result == len(ins0)
+//@   ensures length: len(c.scopes[c.scopeIndex].Instructions) == len(ins0) + 1 + int(spec.sumw(opcode))
+//@   ensures opc: c.scopes[c.scopeIndex].Instructions[result] == opcode
+//@   ensures prefix: forall i in 0..len(ins0) :: c.scopes[c.scopeIndex].Instructions[i] == old(c.scopes[c.scopeIndex].Instructions[i])
+//@   ensures operand1: spec.parser_OpcodeOperands_len(int64(opcode)) >= 1 && spec.parser_OpcodeOperands_at(int64(opcode), 0) == 1
+//@              ==> c.scopes[c.scopeIndex].Instructions[result+1] == byte(operands[0])
+
+// ---------------------------------------------------------------------------
+// instruction encoding (C02): MakeInstruction writes exactly the operand
+// bytes the width table declares; ReadOperands reads them back
+// ---------------------------------------------------------------------------
+
+//@ func MakeInstruction
+//@   props C02
+//@   requires valid: opcode <= parser.OpSuspend && len(operands) == spec.parser_OpcodeOperands_len(int64(opcode))
+//@   assigns nothing
+//@   loop 0 unroll 3
+//@   loop 1 unroll 3
+//@   let w0 = spec.parser_OpcodeOperands_at(int64(opcode), 0)
+//@   let w1 = spec.parser_OpcodeOperands_at(int64(opcode), 1)
+//@   ensures length: len(result) == 1 + int(spec.sumw(opcode)) && fresh(result)
+//@   ensures opc: result[0] == opcode
+//@   ensures op0_w1: len(operands) >= 1 && w0 == 1 ==> result[1] == byte(operands[0])
+//@   ensures op0_w2: len(operands) >= 1 && w0 == 2 ==> result[1] == byte(operands[0] >> 8) && result[2] == byte(operands[0])
+//@   ensures op0_w4: len(operands) >= 1 && w0 == 4 ==> result[1] == byte(operands[0] >> 24) && result[2] == byte(operands[0] >> 16)
+//@                     && result[3] == byte(operands[0] >> 8) && result[4] == byte(operands[0])
+//@   ensures op1_w1: len(operands) >= 2 && w1 == 1 ==> result[1+int(w0)] == byte(operands[1])
+
+// ---------------------------------------------------------------------------
+// compiler: scope bookkeeping. `cwf` (compiler well-formed) is written out in
+// every contract: the current scope exists, has a source map, tracing is off.
+// ---------------------------------------------------------------------------
+
+//@ func (*Compiler).changeOperand
+//@   props C02
+//@   requires scope: 0 <= c.scopeIndex && c.scopeIndex < len(c.scopes) && c.trace == nil
+//@   requires inside: 0 <= opPos && opPos < len(c.scopes[c.scopeIndex].Instructions)
+//@   requires opc: c.scopes[c.scopeIndex].Instructions[opPos] <= parser.OpSuspend
+//@                  && len(operand) == spec.parser_OpcodeOperands_len(int64(c.scopes[c.scopeIndex].Instructions[opPos]))
+//@   assigns c.scopes[c.scopeIndex].Instructions[*]
+//@   ensures opc_kept: c.scopes[c.scopeIndex].Instructions[opPos] == old(c.scopes[c.scopeIndex].Instructions[opPos])
+
+//@ func (*Compiler).enterScope
+//@   requires c.trace == nil && c.symbolTable != nil && 0 <= c.scopeIndex && c.scopeIndex == len(c.scopes) - 1
+//@   assigns c.scopes, c.scopeIndex, c.symbolTable, heap(compilationScope)
+//@   ensures idx: c.scopeIndex == old(c.scopeIndex) + 1 && len(c.scopes) == old(len(c.scopes)) + 1
+//@   ensures scope: c.scopeIndex < len(c.scopes) ==> c.scopes[c.scopeIndex].SourceMap != nil && len(c.scopes[c.scopeIndex].Instructions) == 0
+//@   ensures st: c.symbolTable != nil && fresh(c.symbolTable)
+
+//@ func (*Compiler).error
+//@   requires c.file != nil
+//@   assigns nothing
+//@   ensures result != nil
+//@ func (*Compiler).errorf
+//@   requires c.file != nil
+//@   assigns nothing
+//@   ensures result != nil
+
+//@ func (*Compiler).currentLoop
+//@   mode panics-allowed loops
+//@   assigns nothing
